@@ -25,6 +25,24 @@ fn dec_str(r: &mut Rng) -> String {
         6 => format!("-{}", digits(r, 1, 6)),
         7 => { let a = digits(r, 0, 3); let b = digits(r, 0, 6); format!("{}.{}", a, b) }
         8 => { let a = digits(r, 1, 3); let b = digits(r, 1, 3); format!("{}_{}", a, b) }
+        9 => {
+            // 28 fractional digits, then the byte that decides the rounding, then anything at all
+            let a = digits(r, 1, 3);
+            let b = digits(r, 28, 1);
+            let next = *r.pick(&["0", "4", "5", "9", "_", ".", "x", " ", "-", "e"]);
+            let tail = *r.pick(&["", "", "7", "xyz", "..", " 1", "_5", "e9"]);
+            let sign = *r.pick(&["", "", "-", "+"]);
+            format!("{}{}.{}{}{}", sign, a, b, next, tail)
+        }
+        10 => {
+            // the mantissa reaches 96 bits inside the fraction: rounding on the digit that would overflow
+            let head = *r.pick(&["7922816251426433759354395033", "7922816251426433759354395", "79228162514264337593543950335", "99999999999999999999999999999"]);
+            let k = r.below(head.len() as u64 - 1) as usize + 1;
+            let (ip, fp) = head.split_at(k);
+            let more = digits(r, 0, 6);
+            let tail = *r.pick(&["", "", "x", "_", "."]);
+            format!("{}.{}{}{}", ip, fp, more, tail)
+        }
         _ => {
             let a = digits(r, 1, 9);
             let b = digits(r, 0, 8);
